@@ -8,8 +8,8 @@ git apply $sd/patch.diff || { echo "RESULT patch-does-not-apply"; exit 1; }
 go1.26 build ./... || { echo "RESULT does-not-compile"; exit 1; }
 if go1.26 test -vet=off -count=1 ./... > /tmp/suite.$$.log 2>&1; then echo "RESULT suite-with-change: pass"; else echo "RESULT suite-with-change: FAIL"; grep -E "^(FAIL|---)" /tmp/suite.$$.log | head; fi
 cp $sd/demo_test.go $pkg/zz_seed_demo_test.go
-if go1.26 test -vet=off -count=1 -run 'Demo|ZZ' $pkg > /tmp/demo.$$.log 2>&1; then echo "RESULT demo-with-change: pass (BAD)"; else echo "RESULT demo-with-change: fail (good)"; fi
+if go1.26 test -vet=off -count=1 -run 'Demo|ZZ|Seed' $pkg > /tmp/demo.$$.log 2>&1; then echo "RESULT demo-with-change: pass (BAD)"; else echo "RESULT demo-with-change: fail (good)"; fi
 git apply -R $sd/patch.diff
-if go1.26 test -vet=off -count=1 -run 'Demo|ZZ' $pkg > /tmp/demo2.$$.log 2>&1; then echo "RESULT demo-without-change: pass (good)"; else echo "RESULT demo-without-change: FAIL (BAD)"; tail -5 /tmp/demo2.$$.log; fi
+if go1.26 test -vet=off -count=1 -run 'Demo|ZZ|Seed' $pkg > /tmp/demo2.$$.log 2>&1; then echo "RESULT demo-without-change: pass (good)"; else echo "RESULT demo-without-change: FAIL (BAD)"; tail -5 /tmp/demo2.$$.log; fi
 git checkout -q -- . ; git clean -fdq
 rm -f /tmp/suite.$$.log /tmp/demo.$$.log /tmp/demo2.$$.log
